@@ -2,7 +2,7 @@
 from sa import pat as P
 from sa.cfg import cfg
 from sa.expr import ex, show, walk, cond_exprs, const_val
-from sa.util import table, fmt_conds, describe_table, local_by_name, glob_any, local_assignments
+from sa.util import table, fmt_conds, describe_table, glob_any, local_assignments
 
 EXPLANATION = (
     "Decides every decision point and constant of the header rule as extracted decision tables over the resolved MIR: "
@@ -97,7 +97,7 @@ def r2(ctx):
     f = ctx.fn('R2', HV + 'is_timestamp_valid')
     if f:
         rows = table(prog, f)
-        times = P.named('times')
+        times = P.either(P.var(), P.call('alloc::vec::Vec::new'))
         e = ex(prog, f)
         median = P.index(P.either(times, P.call('alloc::vec::Vec::new')), P.binop('Div', P.length(P.either(times, P.call('alloc::vec::Vec::new'))), P.const(2)))
         old = row(rows, P.agg(variant='Err', _0=P.agg(variant='HeaderIsOld')))
@@ -153,7 +153,8 @@ def r3(ctx):
     f = ctx.fn('R3', 'ic_btc_validation::constants::pow_limit_bits')
     if f:
         got = {}
-        for l in local_by_name(f, 'bits'):
+        from sa.util import find_locals
+        for l in find_locals(prog, f, lambda x, l: const_val(x) == 0x207fffff):
             for bb, e, c in table(prog, f, l):
                 if len(c) == 1 and c[0][0] == 'is':
                     got[c[0][2]] = const_val(e)
@@ -213,25 +214,32 @@ def r4(ctx):
     e = ex(prog, f)
     g = cfg(f)
     limit = P.call('ic_btc_validation::constants::pow_limit_bits', NET)
-    cur_bits = P.field('bits', P.named('current_header'))
+    from sa.util import find_locals, is_var
+    l_hdr = find_locals(prog, f, lambda x, l: P.param('prev_header')(x), lambda x, l: not P.param('prev_header')(x))
+    l_hgt = find_locals(prog, f, lambda x, l: P.param('prev_height')(x), lambda x, l: x[0] == 'bin' and x[1] == 'Sub' and is_var(l)(x[2]))
+    CUR_HDR = is_var(l_hdr[0]) if len(l_hdr) == 1 else (lambda x: False)
+    CUR_HGT = is_var(l_hgt[0]) if len(l_hgt) == 1 else (lambda x: False)
+    l_hash = find_locals(prog, f, lambda x, l: P.call('bitcoin::blockdata::block::Header::block_hash', CUR_HDR)(x), lambda x, l: not P.call('bitcoin::blockdata::block::Header::block_hash', CUR_HDR)(x))
+    CUR_HASH = is_var(l_hash[0]) if len(l_hash) == 1 else (lambda x: False)
+    cur_bits = P.field('bits', CUR_HDR)
     step = [c for c in f.calls() if not c.cleanup and c.matches('ic_btc_validation::header::HeaderStore::get_with_block_hash')]
     if len(step) != 1:
         ctx.unknown('R4', 'step', f, 'expected one parent lookup in find_next_difficulty_in_chain, found %d' % len(step))
         return
     conds = cond_exprs(prog, f, step[0].bb)
-    want = [P.is_(NET, 'Regtest', 'Testnet', 'Testnet4'), P.binop('Eq', limit, cur_bits), P.not_(MULT(P.named('current_height'))),
-            P.binop('Ne', P.call('ic_btc_validation::header::HeaderStore::get_initial_hash', STORE), P.named('current_hash'))]
+    want = [P.is_(NET, 'Regtest', 'Testnet', 'Testnet4'), P.binop('Eq', limit, cur_bits), P.not_(MULT(CUR_HGT)),
+            P.binop('Ne', P.call('ic_btc_validation::header::HeaderStore::get_initial_hash', STORE), CUR_HASH)]
     ctx.check(P.exactly(conds, want), 'R4', 'continue-condition', step[0],
               'the walk steps to the parent exactly while bits == pow_limit && height % 2016 != 0 && not at the initial header',
               'walk-back continues under: %s' % fmt_conds(conds))
     arg = e.operand(step[0].args[1])
-    ctx.check(P.has(P.field('prev_blockhash', P.named('current_header')))(arg) or P.named('prev_blockhash')(arg), 'R4', 'steps-to-parent', step[0],
+    ctx.check(P.has(P.field('prev_blockhash', CUR_HDR))(arg), 'R4', 'steps-to-parent', step[0],
               'the next header is looked up by current_header.prev_blockhash', 'parent lookup key is %s' % show(arg))
     rows = table(prog, f)
     hdr = g.in_loop(step[0].bb)
     inloop = [r for r in rows if cur_bits(r[1]) and hdr is not None and g.dominates(hdr, r[0])]
     ctx.check(len(inloop) == 1, 'R4', 'returns-current-bits', f.where(inloop[0][0]) if inloop else f, 'on stop the current header\'s bits are returned', 'rows: %s' % describe_table(rows))
-    hs = local_by_name(f, 'current_height')
+    hs = l_hgt
     decs = []
     for l in hs:
         for bb, x in local_assignments(prog, f, l):
@@ -266,12 +274,14 @@ def r5(ctx):
     ctx.check(len(a) == 3 and NET(a[2]), 'R5', 'network-arg', f.where(bb), 'network passed to from_next_work_required is self.network', 'network argument is %s' % (show(a[2]) if len(a) == 3 else '?'))
     # base bits: Testnet4 -> last adjustment header's bits, otherwise prev_header.bits
     got = {}
-    for l in local_by_name(f, 'last'):
+    from sa.util import find_locals, is_var
+    l_last = find_locals(prog, f, lambda x, l: P.field('bits', adj)(x), lambda x, l: P.field('bits', PH)(x))
+    for l in l_last:
         for _, x, c in table(prog, f, l):
             netc = [k for k in c if k[0] == 'is' and NET(k[1])]
             if netc:
                 got[netc[0][2]] = 'adj' if P.field('bits', adj)(x) else 'prev' if P.field('bits', PH)(x) else show(x)
-    ctx.check(got == {('Testnet4',): 'adj', ('Bitcoin', 'Regtest', 'Signet', 'Testnet'): 'prev'} and len(a) == 3 and P.named('last')(a[0]), 'R5', 'bip94-base', f,
+    ctx.check(got == {('Testnet4',): 'adj', ('Bitcoin', 'Regtest', 'Signet', 'Testnet'): 'prev'} and len(a) == 3 and len(l_last) == 1 and is_var(l_last[0])(a[0]), 'R5', 'bip94-base', f,
               'base bits: first block of the period for Testnet4 (BIP94), previous header otherwise', 'base bits table is %s' % got)
 
 
